@@ -144,14 +144,15 @@ def patFsyncAcrossRename (st : St) (op : Op) : Bool :=
   | .syncData s => chk s
   | _ => false
 
-/-- F-11: `sync_dir` of the *source* directory flushes a pending cross-directory rename: the inode
-    moves to the new name but the new name never enters `synced_entries` — not even when the
-    destination directory is synced later, because the rename is no longer pending then -/
+/-- F-11: `sync_dir` of only *one* of the two directories of a pending cross-directory rename.  The
+    inode moves to the new name, but `synced_entries` is updated for the synced side only: syncing the
+    source leaves the new name without a durable entry for good (a later sync of the destination finds
+    no pending rename), syncing the destination leaves a stale durable entry under the old name -/
 def patSyncSourceOfCrossRename (st : St) (op : Op) : Bool :=
   match op with
   | .syncDir d =>
     dirExists st.fs d && st.fs.pending.any fun o => match o with
-      | .rename s t => isChildOf s d && !(isChildOf t d)
+      | .rename s t => isChildOf s d != isChildOf t d
       | _ => false
   | _ => false
 
@@ -212,7 +213,7 @@ def patternsAt (st : St) (sp : Spec) (op : Op) : List Taint :=
   ++ mk 10 (patFsyncAcrossRename st op) partners
   ++ mk 11 (patSyncSourceOfCrossRename st op) (match op with
       | .syncDir d => st.fs.pending.flatMap fun o => match o with
-          | .rename s t => if isChildOf s d && !(isChildOf t d) then [s, t] else []
+          | .rename s t => if isChildOf s d != isChildOf t d then [s, t] else []
           | _ => []
       | _ => [])
   ++ mk 8 (patStaleHandle sp op st) (match opSlot op with
@@ -235,10 +236,13 @@ def propagate (ts : List Taint) (op : Op) (ok : Bool) : List Taint :=
     else ts
   | _ => ts
 
-/-- monitor step: taints after `op` (state arguments are the states *before* the op) -/
+/-- monitor step: taints after `op` (state arguments are the states *before* the op), given whether
+    the op succeeded on the model in use -/
+def monStepOk (ts : List Taint) (st : St) (sp : Spec) (op : Op) (ok : Bool) : List Taint :=
+  propagate (ts ++ patternsAt st sp op) op ok
+
 def monStep (cfg : Cfg) (ts : List Taint) (st : St) (sp : Spec) (op : Op) (ora : Ora) : List Taint :=
-  let ts1 := ts ++ patternsAt st sp op
-  propagate ts1 op ((step cfg st op ora).2 == .ok)
+  monStepOk ts st sp op ((step cfg st op ora).2 == .ok)
 
 /-- the finding that explains a divergence observed at `paths`: the earliest taint on a related path -/
 def explain (ts : List Taint) (paths : List Path) : Option Nat :=
